@@ -142,6 +142,21 @@ def _step(state, e, h):
             q = objs[e["i"] - 1] * objs[e["j"] - 1]
             # how number and unit of a product are split is the simplifier's business: report what it denotes
             res = {"k": "obj", "o": {"v": _enc(float(q.d) * float(q.units.base_value)), "s": [1, 1], "d": base._dimvec(q.units.dimensions)}}
+        elif op == "over":
+            a, b = objs[e["i"] - 1], objs[e["j"] - 1]
+            if float(b.d) == 0.0:
+                raise ZeroDivisionError
+            q = a / b
+            res = {"k": "obj", "o": {"v": _enc(float(q.d) * float(q.units.base_value)), "s": [1, 1], "d": base._dimvec(q.units.dimensions)}}
+        elif op == "tou":
+            q = objs[e["i"] - 1].to(objs[e["j"] - 1].units)
+            objs.append(q)
+            state["hs"].append(state["hs"][e["i"] - 1])
+            res = {"k": "obj", "o": _proj(q)}
+        elif op == "convinu":
+            q = objs[e["i"] - 1]
+            q.convert_to_units(objs[e["j"] - 1].units)
+            res = {"k": "obj", "o": _proj(q)}
         elif op in ("eq", "lt"):
             a, b = objs[e["i"] - 1], objs[e["j"] - 1]
             r = (a == b) if op == "eq" else (a < b)
